@@ -202,7 +202,7 @@ func (b *Batch) Files() map[string]string {
 	main.WriteString(body.String())
 	main.WriteString("func main() {\n\tdefer rt.Done()\n")
 	for _, ch := range b.Chains {
-		fmt.Fprintf(&main, "\tchain%d()\n", ch.ID)
+		fmt.Fprintf(&main, "\trt.Begin(%d)\n\tchain%d()\n", ch.ID, ch.ID)
 	}
 	main.WriteString("}\n")
 	files := map[string]string{"main.go": main.String()}
